@@ -2,7 +2,7 @@
    so that none of them holds merely because nothing satisfies its premises.  (On G_syn.) *)
 From Coq Require Import NArith Bool List.
 From PK Require Import Base.Outcome Base.Finite Base.Machine Gen.All Impl Spec.Frame Spec.ScanRef Spec.ScanAuto Spec.Mods Spec.Charts
-  Syn.Ps2 Syn.Set1 Syn.Set2 Syn.Lay Syn.Ev Check.Scan Check.Lay Check.C03 Check.C09 Check.C10 Check.C12 Check.C13 Check.C16 Check.C19 Check.C05.
+  Syn.Ps2 Syn.Set1 Syn.Set2 Syn.Lay Syn.Ev Check.Scan Check.Lay Check.C03 Check.C09 Check.C10 Check.C12 Check.C13 Check.C13s Check.C16 Check.C19 Check.C05.
 Import ListNotations.
 Local Open Scope N_scope.
 
@@ -60,3 +60,20 @@ Proof. reflexivity. Qed.
 
 (* C16: raw52 has 52 distinct keys *)
 Example c16_raw52 : (length raw52, nodup_by KeyCode_eqb raw52) = (52%nat, true). Proof. vm_compute. reflexivity. Qed.
+
+(* C13 (stream level): the premise `good_s` is met by a stream that mixes keys of all three prefix classes,
+   a release and two pass-through bytes (a command acknowledgement and a resend request) *)
+Example c13_stream_premise :
+  forallb (fun x => match x with
+                    | SKey t => considered syn_set2 t
+                    | SJunk b => (b <? 256)%N && passthrough b
+                    end)
+          [SKey (P0, false, 0x1C%N); SJunk 0xFA%N; SKey (PE0, false, 0x6C%N);
+           SKey (PE0, true, 0x6C%N); SJunk 0xFE%N; SKey (PE1, false, 0x14%N)] = true.
+Proof. vm_compute. reflexivity. Qed.
+
+(* C19 (in any history): complete sequences exist in both sets, including undefined ones *)
+Example c19_history_premise :
+  (complete Set2 PE0 0x1C%N, complete Set1 P0 0x5E%N,
+   complete Set1 P0 0x60%N) = (true, true, false).
+Proof. vm_compute. reflexivity. Qed.
